@@ -7,25 +7,25 @@ pub enum Draw { S(Scalar), P1(G1Projective), P2(G2Projective), Bytes(Seq<u8>) }
 pub trait Rng: Sized {
     spec fn log(&self) -> Seq<Draw>;
     fn fill_bytes(&mut self, dest: &mut [u8])
-        ensures final(self).log() == old(self).log().push(Draw::Bytes(final(dest)@)), final(dest)@.len() == old(dest)@.len();
+        ensures (*final(self)).log() == (*old(self)).log().push(Draw::Bytes(final(dest)@)), final(dest)@.len() == old(dest)@.len();
 }
 
 impl Scalar {
     #[verifier::external_body]
     pub fn random<R: Rng>(rng: &mut R) -> (r: Scalar)
-        ensures final(rng).log() == old(rng).log().push(Draw::S(r)),
+        ensures (*final(rng)).log() == (*old(rng)).log().push(Draw::S(r)),
     { unimplemented!() }
 }
 impl G1Projective {
     #[verifier::external_body]
     pub fn random<R: Rng>(rng: &mut R) -> (r: G1Projective)
-        ensures final(rng).log() == old(rng).log().push(Draw::P1(r)),
+        ensures (*final(rng)).log() == (*old(rng)).log().push(Draw::P1(r)),
     { unimplemented!() }
 }
 impl G2Projective {
     #[verifier::external_body]
     pub fn random<R: Rng>(rng: &mut R) -> (r: G2Projective)
-        ensures final(rng).log() == old(rng).log().push(Draw::P2(r)),
+        ensures (*final(rng)).log() == (*old(rng)).log().push(Draw::P2(r)),
     { unimplemented!() }
 }
 
@@ -36,4 +36,11 @@ pub open spec fn log_extends(a: Seq<Draw>, b: Seq<Draw>) -> bool {
 /// `a` is a prefix of `b`
 pub open spec fn log_prefix(a: Seq<Draw>, b: Seq<Draw>) -> bool {
     a.len() <= b.len() && b.subrange(0, a.len() as int) =~= a
+}
+
+/// rand_core's blanket impl: a mutable reference to a generator is a generator (same stream)
+impl<'a, R: Rng> Rng for &'a mut R {
+    open spec fn log(&self) -> Seq<Draw> { (**self).log() }
+    #[verifier::external_body]
+    fn fill_bytes(&mut self, dest: &mut [u8]) { unimplemented!() }
 }
